@@ -518,8 +518,24 @@ class FastEC:
     Judgements made under FastEC compare the library with ITSELF (what a held object said before and says after, counts,
     order, path text, network tags), never with the reference model."""
 
-    def __init__(self, modules, I=bytes([7]) * 64):
-        self.stub = PRFStub(modules, plan=lambda key, msg: I)
+    def __init__(self, modules, I=bytes([7]) * 64, variety=1):
+        if variety > 1:
+            # `variety` different PRF outputs chosen by the message (so by the child index): neighbouring children - and a
+            # child and the one `variety`-coprime rows away - have DIFFERENT key material, which a listing that pairs the
+            # material of one index with the number of another would otherwise hide; still only `variety` distinct scalars
+            # ever reach the (memoised) curve arithmetic
+            import hashlib
+            import zlib
+            table = []
+            j = 0
+            while len(table) < variety:
+                d = hashlib.sha512(b"vp-fastec-%d" % j).digest()
+                j += 1
+                if 0 < int.from_bytes(d[:32], "big") < 0xFFFFFFFFFFFFFFFFFFFFFFFFFFFFFFFEBAAEDCE6AF48A03BBFD25E8CD0364141:
+                    table.append(d)
+            self.stub = PRFStub(modules, plan=lambda key, msg: table[zlib.crc32(bytes(msg)) % variety])
+        else:
+            self.stub = PRFStub(modules, plan=lambda key, msg: I)
         self._undo = []
 
     def __enter__(self):
